@@ -16,7 +16,7 @@ ApiScope::ApiScope(const char *name, XSock *x, bool nonblocking) {
     saved_nb = t->api_nonblocking;
     saved_name = t->api_name;
     saved_sock = t->api_sock;
-    if (t->api_depth++ == 0) t->api_eagains = 0;
+    if (t->api_depth++ == 0) { t->api_eagains = 0; t->api_fault_errno = 0; }
     t->api_nonblocking = nonblocking;
     t->api_name = name;
     t->api_sock = x;
@@ -197,6 +197,19 @@ static void note_terminal(XSock *x, const char *call, int e) {
         G->violation("C06.sticky_errno", "%s: %s reported %s after the connection had failed with %s", x->label.c_str(), call, strerror(e), strerror(x->term_errno));
 }
 
+// C06: "the call that discovers it reports that errno" - the lower read/write that met the break was made by this very call
+static void check_discovery(XSock *x, const char *call, bool succeeded) {
+    Task *t = cur();
+    int fe = t->api_fault_errno;
+    t->api_fault_errno = 0;
+    // judged where the failing direction is the call's own: a write inside xcm_send/xcm_finish, a read inside xcm_receive (a TLS
+    // library may write from within a read - session tickets, alerts - and keep that failure to itself until the next call)
+    if ((call[4] == 'r') == t->api_fault_on_write) return;
+    if (!fe || fe == EPIPE || !succeeded || !judged(x) || x->is_server) return;   // (EPIPE on a write is how a close is learnt: queued input is still to be delivered)
+    G->violation("C06.discovering_call_succeeded", "%s: %s returned success although its own lower-layer %s had just failed with %s: the break is first reported by a later call", x->label.c_str(), call,
+                 t->api_fault_on_write ? "write" : "read", strerror(fe));
+}
+
 int x_send(XSock *x, const void *buf, size_t len) {
     int rc, e;
     // lengths beyond 1 MiB are probes of the library's size check (up to SIZE_MAX): the harness's own bookkeeping never reads more
@@ -225,6 +238,7 @@ int x_send(XSock *x, const void *buf, size_t len) {
         delete[] copy;
     }
     x->send_inflight = false;
+    check_discovery(x, "xcm_send", rc >= 0);
     if (have_before && rc < 0 && is_refusal(e)) {
         int64_t after[8];
         if (x_read_counters(x, after)) {
@@ -305,6 +319,7 @@ int x_receive(XSock *x, void *buf, size_t cap) {
         e = errno;
     }
     G->logf("xcm_receive(%s, cap %zu) = %d%s%s", x->label.c_str(), cap, rc, rc < 0 ? " " : "", rc < 0 ? strerror(e) : "");
+    check_discovery(x, "xcm_receive", rc > 0);
     cur()->ops_since_poll++;
     if (!(rc < 0 && e == EAGAIN)) G->kmut++;
     x->last_recv_eagain = rc < 0 && e == EAGAIN;
@@ -422,6 +437,7 @@ int x_finish(XSock *x) {
         e = errno;
     }
     G->logf("xcm_finish(%s) = %d%s%s", x->label.c_str(), rc, rc < 0 ? " " : "", rc < 0 ? strerror(e) : "");
+    check_discovery(x, "xcm_finish", rc == 0);
     cur()->ops_since_poll++;
     if (rc < 0 && e != EAGAIN) G->kmut++;
     if (rc == 0) x->finish_ok_since_send = true;
